@@ -1,8 +1,9 @@
 // ======================================================================================
 // fragment traversal_topo.rs - src/visit/traversal.rs: Topo::next (property C08)
 // each node is emitted at most once and only after all its predecessors.
-// NOT decided here: completeness (every node off a cycle is emitted), new / with_initials / reset
-// (filter / collect / extend adapters).
+// reset forgets what was emitted (the frame of the TRUSTED extend_with_initials is assumed).
+// NOT decided here: completeness (every node off a cycle is emitted), new / with_initials and WHICH nodes reset
+// puts on the list (filter / collect / extend adapters).
 // ======================================================================================
 
 //@ item src/visit/traversal.rs | - | struct Topo
@@ -92,6 +93,36 @@ where
             return Some(nix);
         }
         None
+    }
+//@ end
+
+//@ item src/visit/traversal.rs | impl<N, VM> Topo<N, VM> where N: Copy + PartialEq, VM: VisitMap<N> | fn extend_with_initials
+    // TRUSTED (filter / extend adapters with a capturing closure): only the FRAME is stated - the emitted-set is not touched; what
+    // is pushed (the nodes without predecessors) is not decided.  The body is kept verbatim; a change inside it is a conflict.
+    /*+*/#[verifier::external_body]/*-*/
+    fn extend_with_initials<G>(&mut self, g: G)
+    where
+        G: IntoNodeIdentifiers + IntoNeighborsDirected<NodeId = N>/*+*/,
+        ensures final(self).ordered == old(self).ordered/*-*/,
+    {
+        // find all initial nodes (nodes without incoming edges)
+        self.tovisit.extend(
+            g.node_identifiers()
+                .filter(move |&a| g.neighbors_directed(a, Incoming).next().is_none()),
+        );
+    }
+//@ end
+
+//@ item src/visit/traversal.rs | impl<N, VM> Topo<N, VM> where N: Copy + PartialEq, VM: VisitMap<N> | fn reset
+    /// Clear visited state, and put all initial nodes in the to visit list.
+    pub fn reset<G>(&mut self, graph: G)
+    where
+        G: IntoNodeIdentifiers + IntoNeighborsDirected + Visitable<NodeId = N, Map = VM>/*+*/,
+        ensures final(self).ordered.vset() == ISet::<N>::empty(), forall|a: N| graph.vis_node(a) ==> #[trigger] final(self).ordered.holds(a)/*-*/,   // [topo_reset_forgets_what_was_emitted]
+    {
+        graph.reset_map(&mut self.ordered);
+        self.tovisit.clear();
+        self.extend_with_initials(graph);
     }
 //@ end
 }
